@@ -299,6 +299,26 @@ func genC04(c *fw.Ctx) {
 	c04Factored(c)
 	opt := drv.Options{FixedSeed: true}
 	judge := func(label string, nodes []*doc.Node, e exp, style string) {
+		blankText := ""
+		if style == "desc-blank" {
+			// an empty line between the Description keyword and its bare text (surrounding blank
+			// lines are not part of a description); only documents that have such a description
+			r := doc.Render(nodes, doc.DefaultStyle())
+			var b strings.Builder
+			changed := false
+			for i, l := range r.Lines {
+				b.WriteString(r.Text[l.Begin:l.End])
+				b.WriteString("\n")
+				if l.Kind == doc.LDirective && l.Span.Node.Kw == "Description" && i+1 < len(r.Lines) && r.Lines[i+1].Kind == doc.LText {
+					b.WriteString("\n")
+					changed = true
+				}
+			}
+			if !changed {
+				return
+			}
+			blankText = b.String()
+		}
 		if !c.Next() {
 			return
 		}
@@ -306,6 +326,8 @@ func genC04(c *fw.Ctx) {
 		c.Describe(label)
 		text := doc.Text(nodes)
 		switch style {
+		case "desc-blank":
+			text = blankText
 		case "crlf":
 			text = strings.ReplaceAll(text, "\n", "\r\n")
 		case "tabs":
@@ -351,9 +373,9 @@ func genC04(c *fw.Ctx) {
 		}
 		c.Sample(sigHead(label), 1, map[string]interface{}{"label": label, "text": text})
 	}
-	styles := []string{""}
+	styles := []string{"", "desc-blank"}
 	if !c.Quick() {
-		styles = []string{"", "crlf", "tabs", "comments"}
+		styles = []string{"", "desc-blank", "crlf", "tabs", "comments"}
 	}
 
 	// (a) focus HTTP method
@@ -416,184 +438,193 @@ func genC04(c *fw.Ctx) {
 	placements := []string{"top", "url-implicit-first", "url-implicit-second", "url-paren-first", "url-paren-second", "after-tagged-url"}
 	for _, style := range styles {
 		for _, pl := range placements {
-			for qi, q := range qf {
-				for _, rl := range respLists {
-					for qu, qy := range queries {
-						for _, ann := range []bool{false, true} {
-							for _, desc := range []bool{false, true} {
-								for tagMode := 0; tagMode <= 3; tagMode++ {
-									for csi, codes := range codeSets {
-										for kidOrder := 0; kidOrder <= 1; kidOrder++ {
-											if kidOrder == 1 && (csi > 0 || tagMode > 1 || len(rl) == 0 || (qu == 0 && !desc && qi == 0)) {
-												continue // the order of the children varies when there is something besides responses
-											}
-											if csi > 0 && (len(rl) != 2 || tagMode != 0 || qu != 0 || ann || desc || qi != 0) {
-												continue // the same code twice varies against an otherwise default method
-											}
-											if c.Expired() {
-												return
-											}
-											// tagMode: 0 no Tags, 1 the method's own Tags, 2 Tags of the enclosing URL, 3 both
-											isURL := strings.HasPrefix(pl, "url-")
-											if tagMode >= 2 && !isURL {
-												continue
-											}
-											if tagMode != 0 && (qu != 0 || ann || desc || qi > 1 || len(rl) > 1) {
-												continue // deviation bound: Tags vary against an otherwise default method
-											}
-											// deviation bound on the "small" attributes: at most two of {query, annotation, description} depart from default together with a non-default request
-											dev := 0
-											if qu != 0 {
-												dev++
-											}
-											if ann {
-												dev++
-											}
-											if desc {
-												dev++
-											}
-											if qi != 0 && len(rl) == 2 && dev > 1 {
-												continue
-											}
-											e := exp{}
-											m := doc.N("POST")
-											if ann {
-												m.Ann = "does things"
-											}
-											if desc {
-												m.Kids = append(m.Kids, doc.N("Description").WithBody("Long text\n  indented more"))
-											}
-											if qy.build != nil {
-												m.Kids = append(m.Kids, qy.build())
-											}
-											if q.build != nil {
-												m.Kids = append(m.Kids, q.build())
-											}
-											for k, ri := range rl {
-												m.Kids = append(m.Kids, rf[ri].build(codes[k]))
-											}
-											if kidOrder == 1 {
-												// the responses first (in their order), then the other children in reverse
-												var resp, rest []*doc.Node
-												for _, kd := range m.Kids {
-													if len(kd.Kw) == 3 && kd.Kw[0] >= '1' && kd.Kw[0] <= '5' {
-														resp = append(resp, kd)
-													} else {
-														rest = append([]*doc.Node{kd}, rest...)
+			for _, kind := range []string{"POST", "PUT", "PATCH", "DELETE"} {
+				for qi, q := range qf {
+					for _, rl := range respLists {
+						for qu, qy := range queries {
+							for _, ann := range []bool{false, true} {
+								for _, desc := range []bool{false, true} {
+									for tagMode := 0; tagMode <= 3; tagMode++ {
+										for csi, codes := range codeSets {
+											for kidOrder := 0; kidOrder <= 1; kidOrder++ {
+												if kidOrder == 1 && (csi > 0 || tagMode > 1 || len(rl) == 0 || (qu == 0 && !desc && qi == 0)) {
+													continue // the order of the children varies when there is something besides responses
+												}
+												if csi > 0 && (len(rl) != 2 || tagMode != 0 || qu != 0 || ann || desc || qi != 0) {
+													continue // the same code twice varies against an otherwise default method
+												}
+												if c.Expired() {
+													return
+												}
+												// tagMode: 0 no Tags, 1 the method's own Tags, 2 Tags of the enclosing URL, 3 both
+												isURL := strings.HasPrefix(pl, "url-")
+												if tagMode >= 2 && !isURL {
+													continue
+												}
+												if tagMode != 0 && (qu != 0 || ann || desc || qi > 1 || len(rl) > 1) {
+													continue // deviation bound: Tags vary against an otherwise default method
+												}
+												// deviation bound on the "small" attributes: at most two of {query, annotation, description} depart from default together with a non-default request
+												dev := 0
+												if qu != 0 {
+													dev++
+												}
+												if ann {
+													dev++
+												}
+												if desc {
+													dev++
+												}
+												if qi != 0 && len(rl) == 2 && dev > 1 {
+													continue
+												}
+												if kind != "POST" {
+													// every method kind expresses the same things: the other kinds against
+													// methods that depart from the default in at most one respect
+													if dev+b2i(qi != 0)+b2i(len(rl) > 1)+b2i(tagMode != 0)+b2i(kidOrder != 0)+b2i(csi != 0) > 1 {
+														continue
 													}
 												}
-												m.Kids = append(resp, rest...)
-											}
-											if tagMode == 1 || tagMode == 3 {
-												m.Kids = append(m.Kids, doc.N("Tags", "@own"))
-											}
-											path := "/focus"
-											id := "http POST " + path
-											nodes := []*doc.Node{doc.Jsight()}
-											nodes = append(nodes, fillerTypes(e)...)
-											var ids []string
-											other := doc.N("GET").WithKids(doc.N("204", "empty"))
-											switch pl {
-											case "after-tagged-url":
-												// an implicit URL block with URL-level Tags, directly followed by the path-bearing focus
-												nodes = append(nodes, doc.N("TAG", "@grp"), doc.N("URL", "/tagged").WithKids(doc.N("Tags", "@grp"), doc.N("GET").WithKids(doc.N("204", "empty"))))
-												m.Params = []string{path}
-												nodes = append(nodes, m)
-												ids = []string{"http GET /tagged", id}
-												e["$.interactions.http GET /tagged.tags[0]"] = "@grp"
-											case "top":
-												m.Params = []string{path}
-												m.Paren = len(m.Kids) > 0
-												nodes = append(nodes, m)
-												ids = []string{id}
-											default:
-												u := doc.N("URL", path)
-												u.Paren = strings.Contains(pl, "paren")
-												if tagMode >= 2 {
-													u.Kids = append(u.Kids, doc.N("Tags", "@ugrp"))
+												e := exp{}
+												m := doc.N(kind)
+												if ann {
+													m.Ann = "does things"
 												}
-												m.Paren = len(m.Kids) > 0 // keep the focus self-delimiting inside the block
-												if strings.HasSuffix(pl, "first") {
-													u.Kids = append(u.Kids, m, other)
-													ids = []string{id, "http GET " + path}
-												} else {
-													u.Kids = append(u.Kids, other, m)
-													ids = []string{"http GET " + path, id}
+												if desc {
+													m.Kids = append(m.Kids, doc.N("Description").WithBody("Long text\n  indented more"))
 												}
-												nodes = append(nodes, u)
-											}
-											nodes = append(nodes, doc.N("TYPE", "@after", "any"))
-											e[keysPath("interactions")] = strings.Join(ids, "|")
-											e[keysPath("userTypes")] = "@t|@u|@after"
-											e["$.info"] = absent
-											e["$.servers"] = absent
-											e["$.userEnums"] = absent
-											e["$.jsight"] = "0.3"
-											p := "$.interactions." + id
-											e[p+".id"] = id
-											e[p+".protocol"] = "http"
-											e[p+".httpMethod"] = "POST"
-											e[p+".path"] = path
-											e[p+".pathVariables"] = absent
-											e[p+".tags.#len"] = "1"
-											switch tagMode {
-											case 0:
-												e[p+".tags[0]"] = "@focus"
-											case 1, 3:
-												e[p+".tags[0]"] = "@own" // the method's own Tags win
-											case 2:
-												e[p+".tags[0]"] = "@ugrp"
-											}
-											if tagMode != 0 {
-												nodes = append(nodes, doc.N("TAG", "@own").WithAnn("Own"), doc.N("TAG", "@ugrp"))
-												e["$.tags.@own.title"] = "Own"
-												e["$.tags.@ugrp.title"] = "@ugrp"
-												if isURL {
-													// the sibling method has no Tags of its own
-													sib := "@focus"
-													if tagMode >= 2 {
-														sib = "@ugrp"
-													}
-													e["$.interactions.http GET "+path+".tags.#len"] = "1"
-													e["$.interactions.http GET "+path+".tags[0]"] = sib
+												if qy.build != nil {
+													m.Kids = append(m.Kids, qy.build())
 												}
-											}
-											if ann {
-												e[p+".annotation"] = "does things"
-											} else {
-												e[p+".annotation"] = absent
-											}
-											if desc {
-												e[p+".description"] = "Long text\n  indented more"
-											} else {
-												e[p+".description"] = absent
-											}
-											qy.exp(e, p+".query")
-											q.exp(e, p+".request")
-											if len(rl) == 0 {
-												e[p+".responses"] = absent
-											} else {
-												e[p+".responses.#len"] = fmt.Sprint(len(rl))
+												if q.build != nil {
+													m.Kids = append(m.Kids, q.build())
+												}
 												for k, ri := range rl {
-													rp := fmt.Sprintf("%s.responses[%d]", p, k)
-													e[rp+".code"] = codes[k]
-													rf[ri].exp(e, rp)
+													m.Kids = append(m.Kids, rf[ri].build(codes[k]))
 												}
+												if kidOrder == 1 {
+													// the responses first (in their order), then the other children in reverse
+													var resp, rest []*doc.Node
+													for _, kd := range m.Kids {
+														if len(kd.Kw) == 3 && kd.Kw[0] >= '1' && kd.Kw[0] <= '5' {
+															resp = append(resp, kd)
+														} else {
+															rest = append([]*doc.Node{kd}, rest...)
+														}
+													}
+													m.Kids = append(resp, rest...)
+												}
+												if tagMode == 1 || tagMode == 3 {
+													m.Kids = append(m.Kids, doc.N("Tags", "@own"))
+												}
+												path := "/focus"
+												id := "http " + kind + " " + path
+												nodes := []*doc.Node{doc.Jsight()}
+												nodes = append(nodes, fillerTypes(e)...)
+												var ids []string
+												other := doc.N("GET").WithKids(doc.N("204", "empty"))
+												switch pl {
+												case "after-tagged-url":
+													// an implicit URL block with URL-level Tags, directly followed by the path-bearing focus
+													nodes = append(nodes, doc.N("TAG", "@grp"), doc.N("URL", "/tagged").WithKids(doc.N("Tags", "@grp"), doc.N("GET").WithKids(doc.N("204", "empty"))))
+													m.Params = []string{path}
+													nodes = append(nodes, m)
+													ids = []string{"http GET /tagged", id}
+													e["$.interactions.http GET /tagged.tags[0]"] = "@grp"
+												case "top":
+													m.Params = []string{path}
+													m.Paren = len(m.Kids) > 0
+													nodes = append(nodes, m)
+													ids = []string{id}
+												default:
+													u := doc.N("URL", path)
+													u.Paren = strings.Contains(pl, "paren")
+													if tagMode >= 2 {
+														u.Kids = append(u.Kids, doc.N("Tags", "@ugrp"))
+													}
+													m.Paren = len(m.Kids) > 0 // keep the focus self-delimiting inside the block
+													if strings.HasSuffix(pl, "first") {
+														u.Kids = append(u.Kids, m, other)
+														ids = []string{id, "http GET " + path}
+													} else {
+														u.Kids = append(u.Kids, other, m)
+														ids = []string{"http GET " + path, id}
+													}
+													nodes = append(nodes, u)
+												}
+												nodes = append(nodes, doc.N("TYPE", "@after", "any"))
+												e[keysPath("interactions")] = strings.Join(ids, "|")
+												e[keysPath("userTypes")] = "@t|@u|@after"
+												e["$.info"] = absent
+												e["$.servers"] = absent
+												e["$.userEnums"] = absent
+												e["$.jsight"] = "0.3"
+												p := "$.interactions." + id
+												e[p+".id"] = id
+												e[p+".protocol"] = "http"
+												e[p+".httpMethod"] = kind
+												e[p+".path"] = path
+												e[p+".pathVariables"] = absent
+												e[p+".tags.#len"] = "1"
+												switch tagMode {
+												case 0:
+													e[p+".tags[0]"] = "@focus"
+												case 1, 3:
+													e[p+".tags[0]"] = "@own" // the method's own Tags win
+												case 2:
+													e[p+".tags[0]"] = "@ugrp"
+												}
+												if tagMode != 0 {
+													nodes = append(nodes, doc.N("TAG", "@own").WithAnn("Own"), doc.N("TAG", "@ugrp"))
+													e["$.tags.@own.title"] = "Own"
+													e["$.tags.@ugrp.title"] = "@ugrp"
+													if isURL {
+														// the sibling method has no Tags of its own
+														sib := "@focus"
+														if tagMode >= 2 {
+															sib = "@ugrp"
+														}
+														e["$.interactions.http GET "+path+".tags.#len"] = "1"
+														e["$.interactions.http GET "+path+".tags[0]"] = sib
+													}
+												}
+												if ann {
+													e[p+".annotation"] = "does things"
+												} else {
+													e[p+".annotation"] = absent
+												}
+												if desc {
+													e[p+".description"] = "Long text\n  indented more"
+												} else {
+													e[p+".description"] = absent
+												}
+												qy.exp(e, p+".query")
+												q.exp(e, p+".request")
+												if len(rl) == 0 {
+													e[p+".responses"] = absent
+												} else {
+													e[p+".responses.#len"] = fmt.Sprint(len(rl))
+													for k, ri := range rl {
+														rp := fmt.Sprintf("%s.responses[%d]", p, k)
+														e[rp+".code"] = codes[k]
+														rf[ri].exp(e, rp)
+													}
+												}
+												if len(ids) == 2 && pl != "after-tagged-url" {
+													op := "$.interactions.http GET " + path
+													e[op+".httpMethod"] = "GET"
+													e[op+".responses.#len"] = "1"
+													e[op+".responses[0].code"] = "204"
+													e[op+".request"] = absent
+													e[op+".query"] = absent
+												}
+												names := []string{}
+												for _, ri := range rl {
+													names = append(names, rf[ri].name)
+												}
+												label := fmt.Sprintf("http %s kind=%s req=%s resp=%v codes=%v query=%s ann=%v desc=%v tags=%d kids=%d style=%s", pl, kind, q.name, names, codes, qy.name, ann, desc, tagMode, kidOrder, style)
+												judge(label, nodes, e, style)
 											}
-											if len(ids) == 2 && pl != "after-tagged-url" {
-												op := "$.interactions.http GET " + path
-												e[op+".httpMethod"] = "GET"
-												e[op+".responses.#len"] = "1"
-												e[op+".responses[0].code"] = "204"
-												e[op+".request"] = absent
-												e[op+".query"] = absent
-											}
-											names := []string{}
-											for _, ri := range rl {
-												names = append(names, rf[ri].name)
-											}
-											label := fmt.Sprintf("http %s req=%s resp=%v codes=%v query=%s ann=%v desc=%v tags=%d kids=%d style=%s", pl, q.name, names, codes, qy.name, ann, desc, tagMode, kidOrder, style)
-											judge(label, nodes, e, style)
 										}
 									}
 								}
@@ -806,4 +837,11 @@ func firstPath(d string) string {
 		p = p[i+4:]
 	}
 	return p
+}
+
+func b2i(b bool) int {
+	if b {
+		return 1
+	}
+	return 0
 }
